@@ -6,6 +6,7 @@
    (create / append-write / fsync / unlink) has no truncate, rename, positional write or re-open for
    writing: the recorder reports those separately and any occurrence is a violation. *)
 From BC Require Import Store.Engine Store.Trace Store.Theorems Store.Discipline.
+From BC Require Resp.Frame Resp.Conn Resp.OverEngine Resp.ServerStore.
 Open Scope N_scope.
 
 (* 1. Every data file is created under a name that does not exist, with an id greater than every id
@@ -51,6 +52,13 @@ Theorem C14_model_traces_accepted : forall c ops, run_ready c init ops ->
   disc_ok (c_max c) (mon_init []) (SCreate (FData 0) :: snd (run c init ops)) = true.
 Proof. exact model_traces_accepted. Qed.
 Print Assumptions C14_model_traces_accepted.
+
+(* ... for the SERVER (Resp/ServerStore.v): the system calls caused by the commands of any connection, whatever bytes
+   it sends, are accepted by the monitor. *)
+Theorem C14_server_traces_accepted : forall c segs,
+  disc_ok (c_max c) (mon_init []) (SCreate (FData 0) :: snd (run c init (Resp.OverEngine.script_of (Resp.Conn.read_all (Resp.Frame.fixed Resp.Frame.Release) segs [])))) = true.
+Proof. exact Resp.ServerStore.server_traces_accepted. Qed.
+Print Assumptions C14_server_traces_accepted.
 
 (* Non-vacuity: the model's own trace of a script with rollovers, a merge and a reopen is accepted;
    a trace that reuses an id, or writes to the older file after a rollover, is rejected. *)
